@@ -3,10 +3,18 @@
    The model: Codec/Schema.v (layout tables, value trees), Codec/Encode.v (generated encoder's
    arithmetic), Codec/Decode.v (schema-ordered reference decoder), Codec/Wf.v (domain),
    Codec/SchemaTable.v (the pinned table of the 169 LLRP types, generated from spec/llrp_layout.json).
-   The JSON clause of C01 is NOT modelled (encoding/json is library code): it is checked by the
-   correspondence run only (Go json round trip of every generated value) — see DESIGN.md. *)
-From Coq Require Import NArith List.
+   The JSON clause of C01 is modelled in Codec/Json.v (JSON trees; to_json / of_json = what
+   encoding/json prints for / reads into the generated structs, driven by Codec/JsonTable.v, the
+   JSON view of the same pinned table: Go field names in struct order, base64 for []byte
+   (Codec/Base64.v), U+FFFD for invalid UTF-8) and proved in Codec/JsonProofs.v; the theorems are at
+   the end of this file.  The JSON *text* layer (escaping, number syntax, encoding/json's reflection)
+   is not modelled: it is tied on every run by comparing json.Marshal's text, parsed by an
+   independent JSON parser, with to_json, and Go's Marshal/Unmarshal result with of_json (to_json v). *)
+From Coq Require Import NArith ZArith List.
+From Coq Require String.
+Import String.StringSyntax.
 From LLRP Require Import Codec.Schema Codec.Encode Codec.Decode Codec.Wf Codec.SchemaTable Codec.RoundTrip Codec.WfBool.
+From LLRP Require Import Codec.Base64 Codec.Base64Proofs Codec.Json Codec.JsonTable Codec.JsonProofs.
 Import ListNotations.
 Open Scope N_scope.
 
@@ -96,3 +104,84 @@ Qed.
 Example C01_example_bytes :
   option_map (@length N) (encode llrp_table example_report) = Some 84%nat.
 Proof. vm_compute. reflexivity. Qed.
+
+(* ================= the JSON clause =================
+   "A value that additionally passes through the JSON form the device service uses for commands
+   and readings survives unchanged (text fields holding valid UTF-8)." *)
+
+(* []byte fields travel as base64 (StdEncoding, '=' padding): decoding the encoding of ANY byte
+   list gives the byte list back *)
+Theorem C01_base64_roundtrip : forall bs,
+  Forall (fun b => b < 256) bs -> b64_decode (b64_encode bs) = Some bs.
+Proof. exact b64_roundtrip. Qed.
+Print Assumptions C01_base64_roundtrip.
+
+(* the JSON view of the pinned table (Go field names, Go types) has the shape of the layout
+   table, for all 169 types; member names of one struct are pairwise distinct *)
+Theorem C01_json_view_agrees :
+  jt_ok llrp_table llrp_jtable = true /\ jt_names_ok llrp_jtable = true /\ length llrp_jtable = 169%nat.
+Proof. repeat split; vm_compute; reflexivity. Qed.
+Print Assumptions C01_json_view_agrees.
+
+(* for EVERY well-formed table and EVERY JSON view that agrees with it: a well-formed value (the
+   domain of the binary round trip above) whose text fields hold valid UTF-8 has a JSON form, and
+   unmarshalling that form into a fresh value yields the value (any nesting depth; nil = empty) *)
+Theorem C01_json_roundtrip : forall t jt msg tid fs ss,
+  wf_schema t = true -> jt_ok t jt = true ->
+  wfv t (VStruct msg tid fs ss) -> text_ok jt (VStruct msg tid fs ss) = true ->
+  exists j, to_json jt (VStruct msg tid fs ss) = Some j /\
+            of_json jt msg tid j = Some (VStruct msg tid fs ss).
+Proof. exact json_roundtrip. Qed.
+Print Assumptions C01_json_roundtrip.
+
+(* the JSON round trip does not depend on the binary side conditions: it holds on the larger
+   domain [jdom] (numbers fit their Go types, bytes < 256, text valid UTF-8, sub-parameters of the
+   declared shapes) — e.g. also for values too large for a 16-bit TLV length *)
+Theorem C01_json_roundtrip_domain : forall jt msg tid fs ss,
+  jdom jt (VStruct msg tid fs ss) ->
+  exists j, to_json jt (VStruct msg tid fs ss) = Some j /\
+            of_json jt msg tid j = Some (VStruct msg tid fs ss).
+Proof. exact json_roundtrip_dom. Qed.
+Print Assumptions C01_json_roundtrip_domain.
+
+(* instantiated at the LLRP tables, in the form the oracle evaluates (`jsonrt`) *)
+Theorem C01_json_llrp_roundtrip : forall v,
+  wfv llrp_table v -> text_ok llrp_jtable v = true -> json_roundtrip_of llrp_jtable v = Some v.
+Proof.
+  intros. apply (json_roundtrip_of_wf llrp_table); try assumption; vm_compute; reflexivity.
+Qed.
+Print Assumptions C01_json_llrp_roundtrip.
+
+(* where the UTF-8 premise enters: Marshal keeps a valid string as it is ... *)
+Theorem C01_json_valid_text_kept : forall bs, utf8_valid bs = true -> utf8_sanitize bs = bs.
+Proof. exact utf8_valid_sanitize. Qed.
+Print Assumptions C01_json_valid_text_kept.
+
+(* ... and without it the clause is false of the model (and of Go: this witness is replayed on
+   every run, kind json-extra): an LLRPStatus whose ErrorDescription is the single byte FF comes
+   back with U+FFFD (EF BF BD) *)
+Theorem C01_json_without_utf8_refuted :
+  exists v v', wfv llrp_table v /\ json_roundtrip_of llrp_jtable v = Some v' /\ v' <> v.
+Proof.
+  exists (VStruct false 287 [VNum 0; VBytes [255]] [VOpt None; VOpt None]).
+  exists (VStruct false 287 [VNum 0; VBytes [239; 191; 189]] [VOpt None; VOpt None]).
+  split; [apply wfvb_sound; vm_compute; reflexivity|].
+  split; [vm_compute; reflexivity|discriminate].
+Qed.
+Print Assumptions C01_json_without_utf8_refuted.
+
+(* non-vacuity: the report above is in the domain; its JSON form has the 3 members of
+   ROAccessReport and reads back as the report. A TagReportData prints int8 -56 for PeakRSSI 200,
+   uint64 exactly, the 17-bit EPC as EPCNumBits 17 + base64 "/wCA" *)
+Example C01_json_example :
+  text_ok llrp_jtable example_report = true /\
+  json_roundtrip_of llrp_jtable example_report = Some example_report /\
+  match to_json llrp_jtable example_report with Some (JObj m) => length m = 3%nat | _ => False end.
+Proof. repeat split; vm_compute; reflexivity. Qed.
+
+Example C01_json_example_members :
+  to_json llrp_jtable (VStruct false 6 [VNum 200] []) = Some (JNum (-56)) /\
+  to_json llrp_jtable (VStruct false 2 [VNum 18446744073709551615] []) = Some (JNum 18446744073709551615) /\
+  to_json llrp_jtable (VStruct false 241 [VBitArr 17 [255; 0; 128]] []) =
+    Some (JObj [("EPCNumBits"%string, JNum 17); ("EPC"%string, JStr [47; 119; 67; 65])]).
+Proof. repeat split; vm_compute; reflexivity. Qed.
